@@ -48,6 +48,7 @@ class Impl(bfs.System):
         self.name = backend
         self.cfg = cfg
         self.timed = bool(cfg.get("timed"))
+        self.peer: Any = None  # single-implementation searches: the model's state is part of the merge key
 
     def reset(self) -> None:
         from pynenc import context
@@ -92,6 +93,8 @@ class Impl(bfs.System):
         self._clock()
         d = self.concrete()
         self.now = env.CLOCK.now
+        if self.peer is not None:
+            d = (d, self.peer.state_key())
         return d
 
     # -- per component -------------------------------------------------
@@ -137,6 +140,10 @@ class Model(bfs.System):
 
     def dump(self) -> Any:
         return None
+
+    def state_key(self) -> str:
+        skip = ("cfg", "cron_cond", "timed") + (() if self.timed else ("now",))
+        return repr(sorted((k, repr(v)) for k, v in vars(self).items() if k not in skip))
 
     def enabled(self, op: tuple) -> bool:
         return True
@@ -312,8 +319,8 @@ class OrchImpl(Impl):
             _, t, sk = spec
             return o.count_invocations(None if t is None else self.tasks[t].task_id, st(sk))
         if k in ("filter", "final"):
-            pool = list(self.ids) + ([self.unknown] if self.cfg.get("unknown_ids") else [])
-            if not self.cfg.get("unknown_ids"):
+            pool = list(self.ids)
+            if not self.cfg.get("all_ids"):
                 # only ids the orchestrator knows (an unknown id is outside the documented contract)
                 pool = [i for i in pool if outcome(lambda i=i: o.get_invocation_status(i).name)[0] != "raise"]
             if k == "final":
@@ -415,8 +422,6 @@ class OrchModel(Model):
 
     # -- alphabet restrictions (listed in ctx.assume) ----------------------
     def enabled(self, op: tuple) -> bool:
-        if self.cfg.get("unrestricted"):
-            return True
         k = op[0]
         if k == "reg":
             return all(i not in self.inv for i in op[1:])
@@ -610,8 +615,10 @@ _orch("orch/auto-purge/U1",
        ("st", 0, "PENDING", "r1"), ("st", 1, "PENDING", "r1"), ("st", 1, "RUNNING", "r1"), ("st", 1, "FAILED", "r1"), ("retry", 0)],
       3, 5, universe="U1", timed=True,
       seeds={"one-final": [("reg", 0), ("idx", 0), ("st", 0, "PENDING", "r1"), ("st", 0, "RUNNING", "r1"), ("st", 0, "SUCCESS", "r1")],
+             "one-final-aged": [("reg", 0), ("idx", 0), ("st", 0, "PENDING", "r1"), ("st", 0, "RUNNING", "r1"), ("st", 0, "SUCCESS", "r1"),
+                                ("adv", D - 3 * U)],
              "final-waited": [("reg", 0), ("reg", 1), ("idx", 0), ("wait", 0, (1,)), ("st", 0, "PENDING", "r1"), ("st", 0, "RUNNING", "r1"),
-                              ("wait", 1, (0,)), ("st", 0, "SUCCESS", "r1")],
+                              ("wait", 1, (0,)), ("st", 0, "SUCCESS", "r1"), ("adv", D - 3 * U)],
              "one-final-one-running": [("reg", 0), ("reg", 1), ("st", 0, "PENDING", "r1"), ("st", 1, "PENDING", "r1"),
                                        ("st", 0, "RUNNING", "r1"), ("st", 1, "RUNNING", "r1"), ("st", 0, "SUCCESS", "r1"),
                                        ("adv", D - 3 * U)]})
@@ -620,28 +627,920 @@ _ALL_OPS = (_REG3 + _st(0, "PENDING RUNNING SUCCESS RETRY KILLED", "r1") + _st(0
                ("wait", 1, (0,)), ("wait", 0, (2,)), ("purge",)])
 _orch("orch/all-pairs/U2", _ALL_OPS, 2, 3, universe="U2")
 
-# ---- probes: suspected divergences, one tiny search each ----------------------------------
-_orch("probe/orch/re-register-existing-id", [("reg", 0), ("st", 0, "PENDING", "r1"), ("retry", 0), ("idx", 0)], 3, 3,
-      universe="U1", unrestricted=True)
+# ---- probes: suspected divergences, one tiny search each (each implementation alone against the model)
+_orch("probe/orch/re-register-existing-id", [("reg", 0), ("st", 0, "PENDING", "r1")], 3, 3, universe="U1", free=("reg",))
 _orch("probe/orch/blocking-limit-0", [("reg", 0), ("reg", 1), ("wait", 1, (0,))], 3, 3, universe="U1", blk_ns=(0,))
 _orch("probe/orch/blocking-oldest-first", _REG3 + [("wait", 2, (0,)), ("wait", 2, (1,)), ("wait", 1, (0,)), ("wait", 0, (1, 2))],
       4, 5, universe="U1", strict_order=True, blk_ns=(1, 2, 10))
-_orch("probe/orch/auto-purge-two-purgeable", [("apurge",), ("adv", U)], 2, 2, universe="U1", timed=True, unrestricted=True,
+_orch("probe/orch/auto-purge-two-purgeable", [("apurge",), ("adv", U)], 2, 2, universe="U1", timed=True, free=("apurge",),
       seeds={"two-final": [("reg", 0), ("reg", 1), ("st", 0, "PENDING", "r1"), ("st", 1, "PENDING", "r1"),
                            ("st", 0, "RUNNING", "r1"), ("st", 1, "RUNNING", "r1"), ("st", 0, "SUCCESS", "r1"),
                            ("st", 1, "SUCCESS", "r1"), ("adv", D - 3 * U), ("adv", U)]})
 _orch("probe/orch/heartbeat-keeps-eligibility", [("hb", "r1", False), ("hb", "r1", True), ("hb", "r2", True), ("hb", "r2", False)],
       2, 2, universe="U1", hb_flag_sticky=True)
-_orch("probe/orch/service-window-before-heartbeat", [("rec", "r1", 5), ("hb", "r1", True)], 2, 2, universe="U1", unrestricted=True)
+_orch("probe/orch/service-window-before-heartbeat", [("rec", "r1", 5), ("hb", "r1", True)], 2, 2, universe="U1", free=("rec",))
 _orch("probe/orch/page-order-registration-time", [("reg", 0), ("reg", 1), ("st", 0, "PENDING", "r1"), ("st", 1, "PENDING", "r1")],
       3, 3, universe="U1", page_by_registration=True)
-_orch("probe/orch/unknown-id-filter", [("reg", 0)], 1, 1, universe="U1", unknown_ids=True)
-_orch("probe/orch/unknown-id-retries", [("retry", 0), ("reg", 0)], 2, 2, universe="U1", unrestricted=True)
+_orch("probe/orch/filter-id-not-registered", [("reg", 0), ("reg", 1)], 2, 2, universe="U1", all_ids=True)
 _orch("probe/orch/purge-setup-twice", [("setup", 0), ("adv", D - 3 * U), ("adv", U), ("apurge",)], 4, 4, universe="U1", timed=True,
       seeds={"registered": [("reg", 0)]})
 
-KINDS: dict[str, tuple] = {"orchestrator": (OrchImpl, OrchModel)}
-CONFIGS: dict[str, dict] = dict(ORCH_CONFIGS)
+
+# =====================================================================================
+# 2. state backend
+# =====================================================================================
+SB_VALUES = {"v1": 1, "vx": "x"}
+SB_KEYS = ("k1", "k2")
+
+
+def sb_queries(cfg: dict) -> list[tuple[str, tuple]]:
+    qs: list[tuple[str, tuple]] = []
+    for i in range(3):
+        qs.append((f"invocation[{i}]", ("inv", i)))
+        qs.append((f"children[{i}]", ("children", i)))
+        qs.append((f"result[{i}]", ("result", i)))
+        qs.append((f"exception[{i}]", ("exception", i)))
+        qs.append((f"history[{i}]", ("history", i)))
+    for w in (0, 2):
+        for key in SB_KEYS:
+            qs.append((f"workflow_data[{w},{key}]", ("wfget", w, key)))
+        qs.append((f"workflow_sub_invocations[{w}]", ("wfsubs", w)))
+    qs.append(("workflow_types", ("wftypes",)))
+    qs.append(("workflow_runs", ("wfruns",)))
+    for t in ("A", "B"):
+        qs.append((f"workflow_runs_of[{t}]", ("wfruns_of", t)))
+    for r in RUNNERS:
+        qs.append((f"runner_context[{r}]", ("ctx", r)))
+    qs.append(("runner_contexts[all]", ("ctxs",)))
+    for part in cfg.get("partials", ("r", "r2", "zz")):
+        qs.append((f"matching_runner_contexts[{part}]", ("match", part)))
+    for which in ("all", "first", "tail"):
+        for batch in (1, 100):
+            qs.append((f"invocations_in_timerange[{which},batch={batch}]", ("inv_range", which, batch)))
+            qs.append((f"history_in_timerange[{which},batch={batch}]", ("hist_range", which, batch)))
+    for w in (None, 0, 2):
+        for t in (None, "A", "B"):
+            qs.append((f"invocation_ids_by_workflow[{w},{t}]", ("by_wf", w, t)))
+    qs.append(("app_info", ("appinfo",)))
+    only = cfg.get("only_queries")
+    if only:
+        qs = [x for x in qs if x[0].startswith(only)]
+    return qs
+
+
+class SbImpl(Impl):
+    def setup(self) -> None:
+        from pynenc.arguments import Arguments
+        from pynenc.call import Call
+        from pynenc.identifiers.invocation_id import generate_invocation_id
+        from pynenc.invocation.dist_invocation import DistributedInvocation
+        from pynenc.workflow.workflow_identity import WorkflowIdentity
+
+        app = self.app
+        self.tasks = {"A": tasks.bind(app, tasks_c16.ta), "B": tasks.bind(app, tasks_c16.tb)}
+        ids = [generate_invocation_id() for _ in range(3)]
+        tA, tB = self.tasks["A"], self.tasks["B"]
+        w0 = WorkflowIdentity.new_workflow(ids[0], tA.task_id)
+        w2 = WorkflowIdentity.new_subworkflow(ids[2], tB.task_id, ids[0])
+        self.wf = {0: w0, 2: w2}
+        mk = lambda t, a, i, parent, wf: DistributedInvocation(  # noqa: E731
+            Call(t, Arguments({"a": a})), i, parent, wf, stored_in_backend=True)
+        self.invs = [mk(tA, 0, ids[0], None, w0), mk(tA, 1, ids[1], ids[0], w0), mk(tB, 0, ids[2], ids[0], w2)]
+        self.ids = ids
+        self.idx = {str(i): k for k, i in enumerate(ids)}
+        self.sb = app.state_backend
+        self.ctxs = {"r1": runner_ctx("r1"), "r3": runner_ctx("r3")}
+        from pynenc.runner.runner_context import RunnerContext
+
+        self.ctxs["r2"] = RunnerContext(runner_cls="VfChild", runner_id="r2", parent_ctx=self.ctxs["r1"])
+
+    def _ix(self, x: Any) -> Any:
+        return None if x is None else self.idx.get(str(x), f"?{x}")
+
+    def _wf(self, w: Any) -> Any:
+        return (self._ix(w.workflow_id), w.workflow_type.key.split(".")[-1], self._ix(w.parent_workflow_id))
+
+    def do(self, op: tuple) -> Any:
+        from pynenc.exceptions import RetryError
+        from pynenc.invocation.status import InvocationStatus as S
+        from pynenc.invocation.status import InvocationStatusRecord
+
+        sb = self.sb
+        k = op[0]
+        if k == "up":
+            sb.upsert_invocations([self.invs[i] for i in op[1:]])
+        elif k == "res":
+            sb.set_result(self.ids[op[1]], SB_VALUES[op[2]])
+        elif k == "exc":
+            sb.set_exception(self.ids[op[1]], ValueError("boom") if op[2] == "value" else RetryError("again"))
+        elif k == "hist":
+            sb.add_history(self.ids[op[1]], InvocationStatusRecord(S[op[2]], op[3]), self.ctxs[op[3]])
+            sb.wait_for_all_async_operations()
+        elif k == "hists":
+            sb.add_histories([self.invs[i] for i in op[1]], InvocationStatusRecord(S[op[2]], op[3]), self.ctxs[op[3]])
+            sb.wait_for_all_async_operations()
+        elif k == "wfset":
+            sb.set_workflow_data(self.wf[op[1]], op[2], SB_VALUES[op[3]])
+        elif k == "wfrun":
+            sb.store_workflow_run(self.wf[op[1]])
+        elif k == "wfsub":
+            sb.store_workflow_sub_invocation(self.ids[op[1]], self.ids[op[2]])
+        elif k == "ctx":
+            sb.store_runner_context(self.ctxs[op[1]])
+        elif k == "purge":
+            sb.purge()
+        else:
+            raise ValueError(op)
+        return ("ok",)
+
+    def _stamps(self) -> list:
+        ts = set()
+        for i in self.ids:
+            for h in self.sb.get_history(i):
+                ts.add(h.timestamp)
+        return sorted(ts)
+
+    def _range(self, which: str) -> tuple:
+        ts = self._stamps()
+        if which == "all" or not ts:
+            return (BASE_DT, BASE_DT + timedelta(days=36500))
+        if which == "first":
+            return (ts[0], ts[0])
+        return (ts[min(1, len(ts) - 1)], ts[-1])
+
+    def q(self, spec: tuple) -> Any:
+        sb = self.sb
+        k = spec[0]
+        ids = lambda it: tuple(sorted((self._ix(x) for x in it), key=str))  # noqa: E731
+        ctx = lambda c: None if c is None else (c.runner_cls, c.runner_id, c.parent_ctx.runner_id if c.parent_ctx else None)  # noqa: E731
+        if k == "inv":
+            inv = sb.get_invocation(self.ids[spec[1]])
+            return (self._ix(inv.invocation_id), inv.call.call_id.task_id.key.split(".")[-1],
+                    tuple(sorted(inv.call.arguments.kwargs.items())), self._ix(inv.parent_invocation_id), self._wf(inv.workflow))
+        if k == "children":
+            return ids(sb.get_child_invocations(self.ids[spec[1]]))
+        if k == "result":
+            return sb.get_result(self.ids[spec[1]])
+        if k == "exception":
+            e = sb.get_exception(self.ids[spec[1]])
+            return (type(e).__name__, tuple(str(a) for a in e.args))
+        if k == "history":
+            return tuple((h.status_record.status.name, h.status_record.runner_id, h.runner_context_id, self._ix(h.registered_by_inv_id))
+                         for h in sb.get_history(self.ids[spec[1]]))
+        if k == "wfget":
+            return sb.get_workflow_data(self.wf[spec[1]], spec[2], "<default>")
+        if k == "wfsubs":
+            return ids(sb.get_workflow_sub_invocations(self.ids[spec[1]]))
+        if k == "wftypes":
+            return tuple(sorted(t.key.split(".")[-1] for t in sb.get_all_workflow_types()))
+        if k == "wfruns":
+            return tuple(sorted((self._wf(w) for w in sb.get_all_workflow_runs()), key=repr))
+        if k == "wfruns_of":
+            return tuple(sorted((self._wf(w) for w in sb.get_workflow_runs(self.tasks[spec[1]].task_id)), key=repr))
+        if k == "ctx":
+            return ctx(sb.get_runner_context(spec[1]))
+        if k == "ctxs":
+            return tuple(sorted(ctx(c) for c in sb.get_runner_contexts(list(RUNNERS) + ["zz"])))
+        if k == "match":
+            return tuple(sorted(ctx(c) for c in sb.get_matching_runner_contexts(spec[1])))
+        if k == "inv_range":
+            a, b = self._range(spec[1])
+            batches = [list(x) for x in sb.iter_invocations_in_timerange(a, b, batch_size=spec[2])]
+            return (tuple(len(x) for x in batches), ids(x for bt in batches for x in bt))
+        if k == "hist_range":
+            a, b = self._range(spec[1])
+            batches = [list(x) for x in sb.iter_history_in_timerange(a, b, batch_size=spec[2])]
+            return (tuple(len(x) for x in batches),
+                    tuple(sorted((self._ix(h.invocation_id), h.status_record.status.name) for bt in batches for h in bt)))
+        if k == "by_wf":
+            _, w, t = spec
+            return ids(sb.get_invocation_ids_by_workflow(
+                workflow_id=None if w is None else str(self.ids[w]),
+                workflow_type_key=None if t is None else self.tasks[t].task_id.key))
+        if k == "appinfo":
+            return sb.get_app_info().app_id
+        raise ValueError(spec)
+
+    def concrete(self) -> Any:
+        sb = self.sb
+        ix = self._ix
+        cache = tuple(sorted(sb._runner_context_cache))
+        if self.backend == env.MEM:
+            hist = [(ix(i), h.timestamp.timestamp(), h.status_record.status.name, h.runner_context_id)
+                    for i, hs in sb._history.items() for h in hs]
+            rest = (
+                sorted((ix(k), c.call_id.key, repr(sorted(c.serialized_arguments.items())), ix(d.parent_invocation_id),
+                        self._wf(d.workflow)) for k, (d, c) in sb._cache.items()),
+                sorted((ix(k), tuple(ix(c) for c in v)) for k, v in sb._parent_to_children.items() if v),
+                sorted((r, c.runner_cls, c.parent_ctx.runner_id if c.parent_ctx else None) for r, c in sb._runner_contexts.items()),
+                sorted((ix(k), v) for k, v in sb._results.items()), sorted((ix(k), v) for k, v in sb._exceptions.items()),
+                sorted((ix(k), kk, repr(vv)) for k, d in sb._workflow_data.items() for kk, vv in d.items()),
+                sorted(t.key for t in sb._workflow_types),
+                sorted((self._wf(w) for ws in sb._workflow_runs.values() for w in ws), key=repr),
+                sorted((ix(k), ix(s)) for k, ss in sb._workflow_sub_invocations.items() for s in ss))
+        else:
+            t = sb.tables
+            db = sb.sqlite_db_path
+            rows = lambda sql: dumps._rows(db, sql)  # noqa: E731
+            hist = [(ix(r[0]), r[1], r[2].upper(), "") for r in rows(
+                f"SELECT invocation_id, history_timestamp, history_status FROM {t.HISTORY}")]
+            rest = (
+                sorted((ix(r[0]), r[1], r[2], ix(r[3]), ix(r[4]), r[5], ix(r[6])) for r in rows(
+                    f"SELECT invocation_id, call_id_key, serialized_arguments, parent_invocation_id, workflow_id, "
+                    f"workflow_type_key, parent_workflow_id FROM {t.INVOCATIONS}")),
+                sorted(rows(f"SELECT runner_id, runner_cls, parent_ctx_id FROM {t.RUNNER_CONTEXTS}")),
+                sorted((ix(r[0]), r[1]) for r in rows(f"SELECT invocation_id, result_data FROM {t.RESULTS}")),
+                sorted((ix(r[0]), r[1]) for r in rows(f"SELECT invocation_id, exception_data FROM {t.EXCEPTIONS}")),
+                sorted((ix(r[0]), r[1], r[2]) for r in rows(f"SELECT workflow_id, data_key, data_value FROM {t.WORKFLOW_DATA}")),
+                sorted((ix(r[0]), r[1], ix(r[2]) if r[2] else None) for r in rows(
+                    f"SELECT workflow_id, workflow_type_key, parent_workflow_id FROM {t.WORKFLOWS}")),
+                sorted((ix(r[0]), ix(r[1])) for r in rows(
+                    f"SELECT parent_workflow_id, sub_invocation_id FROM {t.WORKFLOW_SUB_INVOCATIONS}")),
+                len(rows(f"SELECT app_id FROM {t.APP_INFO}")))
+        rk = _ranker([h[1] for h in hist], self.now, False)
+        return (tuple(sorted((i, rk(ts), s, c) for i, ts, s, c in hist)), repr(rest), cache)
+
+
+class SbModel(Model):
+    """Reference model of base_state_backend.py: plain dictionaries; the documented process-local
+    runner-context cache (store only when not cached, look up the cache first) is part of it."""
+
+    UNIV = [("A", 0, None, 0), ("A", 1, 0, 0), ("B", 0, 0, 2)]  # task, a, parent, workflow
+    WF = {0: (0, "ta", None), 2: (2, "tb", 0)}
+    CTX = {"r1": ("VfRunner", "r1", None), "r2": ("VfChild", "r2", "r1"), "r3": ("VfRunner", "r3", None)}
+
+    def reset(self) -> None:
+        self.now = 0.0
+        self.tick = 0
+        self.invs: set = set()
+        self.results: dict = {}
+        self.excs: dict = {}
+        self.hist: dict = {0: [], 1: [], 2: []}
+        self.wfdata: dict = {}
+        self.wfruns: set = set()
+        self.wfsubs: set = set()
+        self.ctx_store: set = set()
+        self.ctx_cache: set = set()
+        self.app_info = True
+
+    def enabled(self, op: tuple) -> bool:
+        if op[0] == "purge" and not self.cfg.get("free_purge"):
+            return not self.wfdata and not self.ctx_store
+        return True
+
+    def _store_ctx(self, r: str) -> None:
+        if r not in self.ctx_cache:
+            self.ctx_store.add(r)
+        self.ctx_cache.add(r)
+        if self.CTX[r][2]:
+            self._store_ctx(self.CTX[r][2])
+
+    def _hist(self, i: int, status: str, r: str, reg_by: Any) -> None:
+        self.tick += 1
+        self.hist[i].append((self.tick, status, r, r, reg_by))
+
+    def do(self, op: tuple) -> Any:
+        k = op[0]
+        if k == "up":
+            self.invs.update(op[1:])
+        elif k == "res":
+            self.results[op[1]] = SB_VALUES[op[2]]
+        elif k == "exc":
+            self.excs[op[1]] = ("ValueError", ("boom",)) if op[2] == "value" else ("RetryError", ("again",))
+        elif k == "hist":
+            self._store_ctx(op[3])
+            self._hist(op[1], op[2], op[3], None)
+        elif k == "hists":
+            self._store_ctx(op[3])
+            for i in op[1]:
+                self._hist(i, op[2], op[3], self.UNIV[i][2] if op[2] == "REGISTERED" else None)
+        elif k == "wfset":
+            self.wfdata[(op[1], op[2])] = SB_VALUES[op[3]]
+        elif k == "wfrun":
+            self.wfruns.add(op[1])
+        elif k == "wfsub":
+            self.wfsubs.add((op[1], op[2]))
+        elif k == "ctx":
+            self._store_ctx(op[1])
+        elif k == "purge":  # "Purges all store state backend data for the current application"
+            self.invs.clear()
+            self.results.clear()
+            self.excs.clear()
+            self.hist = {0: [], 1: [], 2: []}
+            self.wfdata.clear()
+            self.wfruns.clear()
+            self.wfsubs.clear()
+            self.ctx_store.clear()
+            self.app_info = False
+        else:
+            raise ValueError(op)
+        return ("ok",)
+
+    def _in_range(self, which: str) -> list:
+        ents = sorted((e[0], i, e[1]) for i, es in self.hist.items() for e in es)
+        if which == "all" or not ents:
+            return ents
+        stamps = [e[0] for e in ents]
+        lo, hi = (stamps[0], stamps[0]) if which == "first" else (stamps[min(1, len(stamps) - 1)], stamps[-1])
+        return [e for e in ents if lo <= e[0] <= hi]
+
+    @staticmethod
+    def _batches(n: int, size: int) -> tuple:
+        return tuple(min(size, n - k) for k in range(0, n, size))
+
+    def q(self, spec: tuple) -> Any:
+        k = spec[0]
+        if k == "inv":
+            i = spec[1]
+            if i not in self.invs:
+                raise ModelRaise("InvocationNotFoundError")
+            t, a, parent, w = self.UNIV[i]
+            return (i, "ta" if t == "A" else "tb", (("a", a),), parent, self.WF[w])
+        if k == "children":
+            return tuple(sorted(i for i in self.invs if self.UNIV[i][2] == spec[1]))
+        if k == "result":
+            if spec[1] not in self.results:
+                raise ModelRaise("KeyError")
+            return self.results[spec[1]]
+        if k == "exception":
+            if spec[1] not in self.excs:
+                raise ModelRaise("KeyError")
+            return self.excs[spec[1]]
+        if k == "history":
+            return tuple(e[1:] for e in sorted(self.hist[spec[1]]))
+        if k == "wfget":
+            return self.wfdata.get((spec[1], spec[2]), "<default>")
+        if k == "wfsubs":
+            return tuple(sorted(s for w, s in self.wfsubs if w == spec[1]))
+        if k == "wftypes":
+            return tuple(sorted({self.WF[w][1] for w in self.wfruns}))
+        if k == "wfruns":
+            return tuple(sorted((self.WF[w] for w in self.wfruns), key=repr))
+        if k == "wfruns_of":
+            return tuple(sorted((self.WF[w] for w in self.wfruns if self.WF[w][1] == ("ta" if spec[1] == "A" else "tb")), key=repr))
+        if k == "ctx":
+            r = spec[1]
+            if r in self.ctx_cache:
+                return self.CTX[r]
+            if r in self.ctx_store:
+                self.ctx_cache.add(r)
+                return self.CTX[r]
+            return None
+        if k == "ctxs":
+            out = []
+            for r in RUNNERS:
+                if r in self.ctx_cache or r in self.ctx_store:
+                    self.ctx_cache.add(r)
+                    out.append(self.CTX[r])
+            return tuple(sorted(out))
+        if k == "match":
+            return tuple(sorted(self.CTX[r] for r in self.ctx_store if spec[1] in r))
+        if k == "inv_range":
+            found = sorted({e[1] for e in self._in_range(spec[1])})
+            return (self._batches(len(found), spec[2]), tuple(found))
+        if k == "hist_range":
+            ents = self._in_range(spec[1])
+            return (self._batches(len(ents), spec[2]), tuple(sorted((e[1], e[2]) for e in ents)))
+        if k == "by_wf":
+            _, w, t = spec
+            return tuple(sorted(i for i in self.invs if (w is None or self.UNIV[i][3] == w)
+                                and (t is None or self.UNIV[self.UNIV[i][3]][0] == t)))
+        if k == "appinfo":
+            if not self.app_info:
+                raise ModelRaise("KeyError")
+            return "c16"
+        raise ValueError(spec)
+
+
+SB_CONFIGS: dict[str, dict] = {}
+
+
+def _sb(name: str, ops: list, quick: int, thorough: int, seeds: dict | None = None, **kw: Any) -> None:
+    cfg = dict(comp="state_backend", name=name, ops=ops, depth=(quick, thorough), seeds=seeds or {"": []}, **kw)
+    cfg["queries"] = sb_queries(cfg)
+    SB_CONFIGS[name] = cfg
+
+
+_SB_INV = [("up", 0), ("up", 1), ("up", 2), ("up", 0, 1), ("res", 0, "v1"), ("res", 0, "vx"), ("res", 1, "v1"),
+           ("exc", 0, "value"), ("exc", 0, "retry"), ("exc", 2, "value"), ("purge",)]
+_SB_HIST = [("up", 0), ("up", 1), ("hist", 0, "REGISTERED", "r1"), ("hist", 0, "PENDING", "r2"), ("hist", 1, "REGISTERED", "r1"),
+            ("hist", 2, "RUNNING", "r3"), ("hists", (0, 1), "REGISTERED", "r1"), ("hists", (1, 2), "PENDING", "r2"),
+            ("ctx", "r1"), ("ctx", "r2"), ("ctx", "r3")]
+_SB_WF = [("up", 0), ("up", 2), ("wfset", 0, "k1", "v1"), ("wfset", 0, "k1", "vx"), ("wfset", 2, "k2", "v1"), ("wfrun", 0), ("wfrun", 2),
+          ("wfsub", 0, 1), ("wfsub", 0, 2), ("wfsub", 2, 1), ("purge",)]
+_sb("sb/invocations-results", _SB_INV, 4, 5, only_queries=("invocation", "children", "result", "exception", "history", "workflow",
+                                                           "runner", "matching", "invocations_in", "history_in", "invocation_ids"))
+_sb("sb/history-contexts", _SB_HIST, 3, 4, only_queries=("invocation", "children", "result", "exception", "history", "workflow",
+                                                         "runner", "matching", "invocations_in", "history_in", "invocation_ids"))
+_sb("sb/workflows", _SB_WF, 4, 5, only_queries=("invocation", "children", "result", "exception", "history", "workflow",
+                                               "runner", "matching", "invocations_in", "history_in", "invocation_ids"))
+# purge from any state, every query except the three recorded purge divergences (their own probes below)
+_sb("sb/purge-rest", [("up", 1), ("res", 1, "v1"), ("exc", 1, "value"), ("hist", 1, "PENDING", "r2"), ("wfset", 0, "k1", "v1"),
+                      ("wfrun", 2), ("wfsub", 0, 1), ("purge",)], 4, 5, free_purge=True,
+    only_queries=("invocation", "children", "result", "exception", "history", "workflow_sub", "workflow_types", "workflow_runs",
+                  "runner_context", "invocations_in", "history_in", "invocation_ids"))
+_sb("sb/all-pairs", sorted(set(_SB_INV + _SB_HIST + _SB_WF)), 2, 3,
+    only_queries=("invocation", "children", "result", "exception", "history", "workflow", "runner", "matching", "invocations_in",
+                  "history_in", "invocation_ids"))
+_sb("probe/sb/purge-keeps-workflow-data", [("wfset", 0, "k1", "v1"), ("purge",)], 2, 2, free_purge=True, only_queries=("workflow_data",))
+_sb("probe/sb/purge-keeps-runner-contexts", [("ctx", "r1"), ("purge",)], 2, 2, free_purge=True, only_queries=("matching", "runner"))
+_sb("probe/sb/purge-app-info", [("purge",)], 1, 1, free_purge=True, only_queries=("app_info",))
+_sb("probe/sb/matching-runner-contexts-like", [("ctx", "r1"), ("ctx", "r2")], 2, 2, only_queries=("matching",),
+    partials=("R1", "_", "%", "r"))
+
+
+# =====================================================================================
+# 3. trigger store
+# =====================================================================================
+def trg_queries(cfg: dict) -> list[tuple[str, tuple]]:
+    qs: list[tuple[str, tuple]] = []
+    for c in ("S", "E", "C"):
+        qs.append((f"condition[{c}]", ("cond", c)))
+        qs.append((f"triggers_for_condition[{c}]", ("for_cond", c)))
+        qs.append((f"last_cron_execution[{c}]", ("last_cron", c)))
+    for t in ("t1", "t2", "t3"):
+        qs.append((f"trigger[{t}]", ("trigger", t)))
+    for task in ("A", "F"):
+        for ct in (None, "StatusContext", "EventContext"):
+            qs.append((f"conditions_sourced_from_task[{task},{ct}]", ("sourced", task, ct)))
+    qs.append(("valid_conditions", ("valid",)))
+    qs.append(("all_conditions", ("all_conds",)))
+    only = cfg.get("only_queries")
+    if only:
+        qs = [x for x in qs if x[0].startswith(only)]
+    return qs
+
+
+class TrgImpl(Impl):
+    def setup(self) -> None:
+        from pynenc.trigger.conditions import CompositeLogic, CronContext, EventContext, ValidCondition
+        from pynenc.trigger.trigger_builder import on_cron, on_event, on_status
+        from pynenc.trigger.trigger_definitions import TriggerDefinition
+
+        app = self.app
+        self.tasks = {"A": tasks.bind(app, tasks_c16.ta), "F": tasks.bind(app, tasks_c16.fired), "G": tasks.bind(app, tasks_c16.tb)}
+        self.builders = {"S": on_status(self.tasks["A"]), "E": on_event("ev"), "C": on_cron("*/5 * * * *")}
+        self.conds = {k: b.conditions[0] for k, b in self.builders.items()}
+        cid = {k: c.condition_id for k, c in self.conds.items()}
+        self.cid = cid
+        self.cname = {v: k for k, v in cid.items()}
+        F, G = self.tasks["F"].task_id, self.tasks["G"].task_id
+        self.trigs = {"t1": TriggerDefinition(F, [cid["S"]]).to_dto(app),
+                      "t2": TriggerDefinition(F, [cid["E"], cid["C"]], CompositeLogic.OR).to_dto(app),
+                      "t3": TriggerDefinition(G, [cid["E"]]).to_dto(app)}
+        self.tname = {d.trigger_id: k for k, d in self.trigs.items()}
+        self.vcs = {"vE1": ValidCondition(self.conds["E"], EventContext(event_id="e1", event_code="ev", payload={"k": 1})),
+                    "vE2": ValidCondition(self.conds["E"], EventContext(event_id="e2", event_code="ev", payload={})),
+                    "vC": ValidCondition(self.conds["C"], CronContext(timestamp=BASE_DT))}
+        self.vname = {v.valid_condition_id: k for k, v in self.vcs.items()}
+        self.events: list[str] = []
+        self.trg = app.trigger
+
+    def do(self, op: tuple) -> Any:
+        t = self.trg
+        k = op[0]
+        if k == "cond":
+            t.register_condition(self.conds[op[1]])
+        elif k == "trig":
+            t.register_trigger(self.trigs[op[1]])
+        elif k == "rawcond":
+            t._register_condition(self.conds[op[1]])
+        elif k == "clean":
+            t.clean_task_trigger_definitions(self.tasks[op[1]].task_id)
+        elif k == "rtt":
+            t.register_task_triggers(self.tasks[op[1]], [self.builders[b] for b in op[2]])
+        elif k == "vc":
+            t.record_valid_condition(self.vcs[op[1]])
+        elif k == "vcs":
+            t.record_valid_conditions([self.vcs[v] for v in op[1]])
+        elif k == "clear":
+            t.clear_valid_conditions([self.vcs[v] for v in op[1]])
+        elif k == "emit":
+            self.events.append(t.emit_event(op[1], {"k": op[2]}))
+        elif k == "claim":
+            return ("claimed", t.claim_trigger_run(op[1], op[2]))
+        elif k == "cron":
+            exp = None if op[2] is None else BASE_DT + timedelta(minutes=op[2])
+            return ("stored", t.store_last_cron_execution(self.cid[op[3]] if len(op) > 3 else self.cid["C"],
+                                                          BASE_DT + timedelta(minutes=op[1]), exp))
+        elif k == "ctt":
+            t.check_time_based_triggers(BASE_DT + timedelta(minutes=op[1]))
+        elif k == "adv":
+            env.CLOCK.now = round(env.CLOCK.now + op[1], 6)
+        elif k == "purge":
+            t.purge()
+        else:
+            raise ValueError(op)
+        return ("ok",)
+
+    def _vc_name(self, vid: str) -> str:
+        if vid in self.vname:
+            return self.vname[vid]
+        for n, e in enumerate(self.events):
+            vid = vid.replace(e, f"<event{n}>")
+        for cid, c in self.cname.items():
+            vid = vid.replace(cid, f"<{c}>")
+        return vid
+
+    def q(self, spec: tuple) -> Any:
+        from pynenc.trigger import conditions as cmod
+
+        t = self.trg
+        k = spec[0]
+        if k == "cond":
+            c = t.get_condition(self.cid[spec[1]])
+            return None if c is None else (type(c).__name__, self.cname.get(c.condition_id, c.condition_id))
+        if k == "for_cond":
+            return tuple(sorted(self.tname.get(d.trigger_id, d.trigger_id) for d in t.get_triggers_for_condition(self.cid[spec[1]])))
+        if k == "last_cron":
+            d = t.get_last_cron_execution(self.cid[spec[1]])
+            return None if d is None else (d - BASE_DT).total_seconds() / 60
+        if k == "trigger":
+            d = t.get_trigger(self.trigs[spec[1]].trigger_id)
+            return None if d is None else (self.tname.get(d.trigger_id), d.task_id.key.split(".")[-1],
+                                           tuple(sorted(self.cname.get(c, c) for c in d.condition_ids)), d.logic.name)
+        if k == "sourced":
+            ct = None if spec[2] is None else getattr(cmod, spec[2])
+            return tuple(sorted(self.cname.get(c.condition_id, c.condition_id)
+                                for c in t.get_conditions_sourced_from_task(self.tasks[spec[1]].task_id, ct)))
+        if k == "valid":
+            return tuple(sorted((self._vc_name(vid), self.cname.get(v.condition.condition_id), type(v.context).__name__)
+                                for vid, v in t.get_valid_conditions().items()))
+        if k == "all_conds":
+            return tuple(sorted(self.cname.get(c.condition_id, c.condition_id) for c in t._get_all_conditions()))
+        raise ValueError(spec)
+
+    def concrete(self) -> Any:
+        t = self.trg
+        base = (tuple(sorted(self.cname.get(c, c) for c in t._registered_conditions)),
+                tuple(sorted((k.key, tuple(sorted(v))) for k, v in t._source_task_conditions.items() if v)),
+                tuple(sorted((self.cname.get(c, c), str(v)) for c, v in t._last_cron_execution_cache.items())))
+        stamps: list = []
+        if self.backend == env.MEM:
+            claims = [(k, v.timestamp()) for k, v in t._trigger_run_claims.items()]
+            rest = (sorted(t._conditions), sorted(t._triggers), sorted((c, tuple(v)) for c, v in t._condition_triggers.items() if v),
+                    sorted(self._vc_name(v) for v in t._valid_conditions), sorted((k, str(v)) for k, v in t._last_cron_executions.items()))
+        else:
+            tb = t.tables
+            rows = lambda sql: dumps._rows(t.sqlite_db_path, sql)  # noqa: E731
+            claims = [(r[0], datetime.fromisoformat(r[1]).timestamp()) for r in rows(
+                f"SELECT trigger_run_id, expiration FROM {tb.TRIGGER_RUN_CLAIMS}")]
+            rest = (sorted(rows(f"SELECT condition_id, last_cron_execution FROM {tb.CONDITIONS}")),
+                    sorted(rows(f"SELECT trigger_id, task_id_key, logic_value FROM {tb.TRIGGERS}")),
+                    sorted(rows(f"SELECT condition_id, trigger_id FROM {tb.CONDITION_TRIGGERS}")),
+                    sorted(self._vc_name(r[0]) for r in rows(f"SELECT valid_condition_id FROM {tb.VALID_CONDITIONS}")),
+                    sorted(rows(f"SELECT task_id_key, condition_id FROM {tb.SOURCE_TASK_CONDITIONS}")))
+        rk = _ranker(stamps, self.now, True)
+        return (base, repr(rest), tuple(sorted((k, rk(v)) for k, v in claims)), len(self.events))
+
+
+class TrgModel(Model):
+    """Reference model of base_trigger.py: condition / trigger / valid-condition tables, the documented
+    once-per-process registration cache, the cron bookkeeping with its local cache, expiring claims."""
+
+    SRC = {"S": "A"}  # condition -> source task
+    CTYPE = {"S": "StatusContext", "E": "EventContext", "C": "CronContext"}
+    CLS = {"S": "StatusCondition", "E": "EventCondition", "C": "CronCondition"}
+    TRIGS = {"t1": ("fired", ("S",), "AND"), "t2": ("fired", ("C", "E"), "OR"), "t3": ("tb", ("E",), "AND")}
+    TASK_OF = {"F": "fired", "G": "tb", "A": "ta"}
+
+    def reset(self) -> None:
+        from pynenc.trigger.conditions import CronCondition
+
+        self.now = 0.0
+        self.conds: set = set()
+        self.seen: set = set()  # process-local: already registered by this app object
+        self.trigs: dict = {}
+        self.links: list = []  # (condition, trigger)
+        self.valid: dict = {}
+        self.cron: dict = {}
+        self.cron_cache: dict = {}
+        self.claims: dict = {}
+        self.nevents = 0
+        self.cron_cond = CronCondition("*/5 * * * *")  # shared pure schedule arithmetic (not a backend)
+
+    def enabled(self, op: tuple) -> bool:
+        if op[0] == "cron" and "cron" not in self.cfg.get("free", ()):
+            return (op[3] if len(op) > 3 else "C") in self.conds
+        if op[0] == "trig" and "trig" not in self.cfg.get("free", ()):
+            return op[1] not in self.trigs
+        if op[0] == "rawcond":
+            return op[1] in self.seen
+        return True
+
+    def _reg_cond(self, c: str) -> None:
+        if c not in self.seen:
+            self.seen.add(c)
+            self.conds.add(c)
+
+    def _reg_trig(self, t: str) -> None:
+        self.trigs[t] = self.TRIGS[t]
+        for c in self.TRIGS[t][1]:
+            if (c, t) not in self.links:
+                self.links.append((c, t))
+
+    def _clean(self, task: str) -> None:
+        gone = [t for t, d in self.trigs.items() if d[0] == self.TASK_OF[task]]
+        for t in gone:
+            del self.trigs[t]
+        self.links = [(c, t) for c, t in self.links if t not in gone]
+
+    def _sat(self, minute: int, last: Any) -> bool:
+        from pynenc.trigger.conditions import CronContext
+
+        return self.cron_cond.is_satisfied_by(CronContext(
+            timestamp=BASE_DT + timedelta(minutes=minute),
+            last_execution=None if last is None else BASE_DT + timedelta(minutes=last)))
+
+    def do(self, op: tuple) -> Any:
+        k = op[0]
+        if k == "cond":
+            self._reg_cond(op[1])
+        elif k == "rawcond":
+            self.conds.add(op[1])
+        elif k == "trig":
+            self._reg_trig(op[1])
+        elif k == "clean":
+            self._clean(op[1])
+        elif k == "rtt":
+            self._clean(op[1])
+            for b in op[2]:
+                self._reg_cond(b)
+                t = {("F", "S"): "t1", ("G", "E"): "t3"}[(op[1], b)]
+                self._reg_trig(t)
+        elif k == "vc":
+            self.valid[op[1]] = op[1]
+        elif k == "vcs":
+            for v in op[1]:
+                self.valid[v] = v
+        elif k == "clear":
+            for v in op[1]:
+                self.valid.pop(v, None)
+        elif k == "emit":
+            n = self.nevents
+            self.nevents += 1
+            if "E" in self.conds and op[1] == "ev":  # only conditions on this event code
+                self.valid[f"valid_condition_<E>_context_event_{op[1]}_<event{n}>"] = "E"
+        elif k == "claim":
+            exp = self.claims.get(op[1])
+            if exp is not None and exp > self.now:
+                return ("claimed", False)
+            self.claims[op[1]] = self.now + op[2]
+            return ("claimed", True)
+        elif k == "cron":
+            c = op[3] if len(op) > 3 else "C"
+            if op[2] is not None and self.cron.get(c) != op[2]:
+                return ("stored", False)
+            self.cron[c] = op[1]
+            return ("stored", True)
+        elif k == "ctt":
+            if "C" in self.conds:
+                m = op[1]
+                cached = self.cron_cache.get("C")
+                if cached is not None and not self._sat(m, cached):
+                    return ("ok",)
+                stored = self.cron.get("C")
+                if stored is not None:
+                    self.cron_cache["C"] = stored
+                    if not self._sat(m, stored):
+                        return ("ok",)
+                self.cron["C"] = m
+                self.cron_cache["C"] = m
+                self.valid[f"valid_condition_<C>_context_cron_{(BASE_DT + timedelta(minutes=m)).isoformat()}"] = "C"
+        elif k == "adv":
+            self.now = round(self.now + op[1], 6)
+        elif k == "purge":
+            self.conds.clear()
+            self.seen.clear()
+            self.trigs.clear()
+            self.links = []
+            self.valid.clear()
+            self.cron.clear()
+            self.cron_cache.clear()
+            self.claims.clear()
+        else:
+            raise ValueError(op)
+        return ("ok",)
+
+    def q(self, spec: tuple) -> Any:
+        k = spec[0]
+        if k == "cond":
+            return (self.CLS[spec[1]], spec[1]) if spec[1] in self.conds else None
+        if k == "for_cond":
+            return tuple(sorted(t for c, t in self.links if c == spec[1] and t in self.trigs))
+        if k == "last_cron":
+            v = self.cron.get(spec[1])
+            return None if v is None else float(v)
+        if k == "trigger":
+            d = self.trigs.get(spec[1])
+            return None if d is None else (spec[1], d[0], tuple(sorted(d[1])), d[2])
+        if k == "sourced":
+            return tuple(sorted(c for c in self.conds if c in self.seen_src() and self.SRC.get(c) == spec[1]
+                                and (spec[2] is None or self.CTYPE[c] == spec[2])))
+        if k == "valid":
+            name = lambda key, c: key if key.startswith("valid_condition") else key  # noqa: E731
+            return tuple(sorted((name(key, c), c if c in ("S", "E", "C") else {"vE1": "E", "vE2": "E", "vC": "C"}[c],
+                                 self.CTYPE[c if c in ("S", "E", "C") else {"vE1": "E", "vE2": "E", "vC": "C"}[c]])
+                                for key, c in self.valid.items()))
+        if k == "all_conds":
+            return tuple(sorted(self.conds))
+        raise ValueError(spec)
+
+    def seen_src(self) -> set:
+        # the source-task link is written by register_condition (public path) only
+        return self.seen
+
+
+TRG_CONFIGS: dict[str, dict] = {}
+
+
+def _trg(name: str, ops: list, quick: int, thorough: int, seeds: dict | None = None, **kw: Any) -> None:
+    cfg = dict(comp="trigger", name=name, ops=ops, depth=(quick, thorough), seeds=seeds or {"": []}, **kw)
+    cfg["queries"] = trg_queries(cfg)
+    TRG_CONFIGS[name] = cfg
+
+
+_trg("trg/definitions", [("cond", "S"), ("cond", "E"), ("cond", "C"), ("trig", "t1"), ("trig", "t2"), ("trig", "t3"),
+                         ("clean", "F"), ("clean", "G"), ("rtt", "F", ("S",)), ("rtt", "G", ("E",)), ("rtt", "F", ()), ("purge",)],
+     4, 5)
+_trg("trg/valid-conditions", [("cond", "E"), ("cond", "C"), ("trig", "t2"), ("vc", "vE1"), ("vc", "vC"), ("vcs", ("vE1", "vE2")),
+                              ("vcs", ()), ("clear", ("vE1",)), ("clear", ("vE2", "vC")), ("emit", "ev", 1), ("emit", "other", 1),
+                              ("purge",)], 4, 5)
+_trg("trg/cron", [("cond", "C"), ("cron", 5, None), ("cron", 10, 5), ("cron", 10, 0), ("cron", 0, None), ("ctt", 5), ("ctt", 6),
+                  ("ctt", 10), ("ctt", 12), ("purge",)], 4, 6)
+_trg("trg/claims", [("claim", "x", 1), ("claim", "y", 1), ("claim", "x", 2), ("adv", 1 - 2 * U), ("adv", U), ("purge",)], 4, 6,
+     timed=True, only_queries=("valid", "all_conditions"))
+_trg("trg/all-pairs", [("cond", "S"), ("cond", "E"), ("cond", "C"), ("trig", "t1"), ("trig", "t2"), ("clean", "F"), ("rtt", "F", ("S",)),
+                       ("vc", "vE1"), ("vcs", ("vE2", "vC")), ("clear", ("vE1",)), ("emit", "ev", 1), ("cron", 5, None), ("cron", 10, 5),
+                       ("ctt", 5), ("ctt", 10), ("claim", "x", 60), ("purge",)], 2, 3)
+_trg("probe/trg/register-trigger-twice", [("cond", "E"), ("trig", "t3")], 3, 3, free=("trig",), only_queries=("triggers_for",))
+_trg("probe/trg/raw-condition-write-keeps-cron", [("cond", "C"), ("cron", 5, None), ("rawcond", "C")], 3, 3,
+     only_queries=("last_cron", "condition", "all_conditions"))
+_trg("probe/trg/cron-store-unregistered-condition", [("cron", 5, None), ("cond", "C")], 2, 2, free=("cron",),
+     only_queries=("last_cron",))
+
+
+# =====================================================================================
+# 4. client data store
+# =====================================================================================
+CDS_VALUES = {"a": [1, 2, 3], "b": "text"}
+
+
+def cds_queries(cfg: dict) -> list[tuple[str, tuple]]:
+    return ([(f"resolve[{v}]", ("resolve", v)) for v in CDS_VALUES] + [(f"retrieve[{k}]", ("retrieve", k)) for k in ("a", "b", "free")]
+            + [(f"inline[{v}]", ("inline", v)) for v in CDS_VALUES])
+
+
+class CdsImpl(Impl):
+    def setup(self) -> None:
+        import hashlib
+
+        from pynenc.serializer.constants import ReservedKeys
+
+        self.ds = self.app.client_data_store
+        ser = self.app.serializer
+        self.blob = {v: ser.serialize(x) for v, x in CDS_VALUES.items()}
+        # the documented key: reserved prefix + SHA-256 of the serialised content
+        self.key = {v: f"{ReservedKeys.CLIENT_DATA.value}:{hashlib.sha256(b.encode()).hexdigest()}" for v, b in self.blob.items()}
+        self.key["free"] = f"{ReservedKeys.CLIENT_DATA.value}:free"
+
+    def do(self, op: tuple) -> Any:
+        ds = self.ds
+        k = op[0]
+        if k == "ser":
+            r = ds.serialize(CDS_VALUES[op[1]])
+            return ("ref", r == self.key[op[1]], ds.is_reference(r))
+        if k == "ser_inline":
+            return ("inline", ds.serialize(CDS_VALUES[op[1]], disable_cache=True) == self.blob[op[1]])
+        if k == "store":
+            ds._store(self.key[op[1]], self.blob[op[2]])
+        elif k == "purge":
+            ds.purge()
+        else:
+            raise ValueError(op)
+        return ("ok",)
+
+    def q(self, spec: tuple) -> Any:
+        if spec[0] == "resolve":
+            return repr(self.ds.resolve(self.key[spec[1]]))
+        if spec[0] == "retrieve":
+            b = self.ds._retrieve(self.key[spec[1]])
+            return next((v for v, x in self.blob.items() if x == b), b)
+        if spec[0] == "inline":
+            return repr(self.ds.resolve(self.blob[spec[1]]))
+        raise ValueError(spec)
+
+    def concrete(self) -> Any:
+        names = {v: k for k, v in self.key.items()}
+        if self.backend == env.MEM:
+            rows = sorted((names.get(k, k), v) for k, v in self.ds._storage.items())
+        else:
+            rows = sorted((names.get(r[0], r[0]), r[1].decode()) for r in dumps._rows(
+                self.ds.sqlite_db_path, f"SELECT data_key, data_value FROM {self.ds.tables.STORE}"))
+        return (tuple(rows), tuple(names.get(k, k) for k in self.ds._deserialized_cache))
+
+
+class CdsModel(Model):
+    """Content-addressed store + the documented process-local cache of deserialised objects."""
+
+    def reset(self) -> None:
+        self.now = 0.0
+        self.store: dict = {}
+        self.cache: dict = {}
+
+    def do(self, op: tuple) -> Any:
+        k = op[0]
+        if k == "ser":
+            self.store[op[1]] = op[1]
+            self.cache[op[1]] = op[1]
+            return ("ref", True, True)
+        if k == "ser_inline":
+            return ("inline", True)
+        if k == "store":
+            self.store[op[1]] = op[2]
+        elif k == "purge":
+            self.store.clear()
+            self.cache.clear()
+        return ("ok",)
+
+    def q(self, spec: tuple) -> Any:
+        if spec[0] == "resolve":
+            v = spec[1]
+            if v not in self.cache:
+                if v not in self.store:
+                    raise ModelRaise("KeyError")
+                self.cache[v] = self.store[v]
+            return repr(CDS_VALUES[self.cache[v]])
+        if spec[0] == "retrieve":
+            if spec[1] not in self.store:
+                raise ModelRaise("KeyError")
+            return self.store[spec[1]]
+        if spec[0] == "inline":
+            return repr(CDS_VALUES[spec[1]])
+        raise ValueError(spec)
+
+
+CDS_CONFIGS = {"cds/store": dict(
+    comp="client_data_store", name="cds/store", depth=(6, 8), seeds={"": []}, conf=dict(min_size_to_cache=1),
+    ops=[("ser", "a"), ("ser", "b"), ("ser_inline", "a"), ("store", "a", "a"), ("store", "a", "b"), ("store", "free", "b"), ("purge",)])}
+CDS_CONFIGS["cds/store"]["queries"] = cds_queries(CDS_CONFIGS["cds/store"])
+
+
+# =====================================================================================
+# 5. broker (C08 explores it in depth; here the same systems, a short search)
+# =====================================================================================
+class BrokerImpl(Impl):
+    def setup(self) -> None:
+        self.b = self.app.broker
+
+    def do(self, op: tuple) -> Any:
+        b = self.b
+        if op[0] == "route":
+            b.route_invocation(op[1])
+        elif op[0] == "batch":
+            b.route_invocations(list(op[1]))
+        elif op[0] == "retrieve":
+            r = b.retrieve_invocation()
+            return ("got", None if r is None else str(r))
+        elif op[0] == "purge":
+            b.purge()
+        return ("ok",)
+
+    def q(self, spec: tuple) -> Any:
+        return self.b.count_invocations()
+
+    def concrete(self) -> Any:
+        return dumps.queue(self.app, self.backend)
+
+
+class BrokerModel(Model):
+    def reset(self) -> None:
+        self.now = 0.0
+        self.fifo: list = []
+
+    def do(self, op: tuple) -> Any:
+        if op[0] == "route":
+            self.fifo.append(op[1])
+        elif op[0] == "batch":
+            self.fifo.extend(op[1])
+        elif op[0] == "retrieve":
+            return ("got", self.fifo.pop(0) if self.fifo else None)
+        elif op[0] == "purge":
+            self.fifo.clear()
+        return ("ok",)
+
+    def q(self, spec: tuple) -> Any:
+        return len(self.fifo)
+
+
+BROKER_CONFIGS = {"broker/fifo": dict(
+    comp="broker", name="broker/fifo", depth=(5, 7), seeds={"": []}, queries=[("count", ("count",))],
+    ops=[("route", "a"), ("route", "b"), ("batch", ("a", "b")), ("batch", ("b", "b")), ("batch", ()), ("retrieve",), ("purge",)])}
+
+
+KINDS: dict[str, tuple] = {"orchestrator": (OrchImpl, OrchModel), "state_backend": (SbImpl, SbModel), "trigger": (TrgImpl, TrgModel),
+                           "client_data_store": (CdsImpl, CdsModel), "broker": (BrokerImpl, BrokerModel)}
+CONFIGS: dict[str, dict] = {**ORCH_CONFIGS, **SB_CONFIGS, **TRG_CONFIGS, **CDS_CONFIGS, **BROKER_CONFIGS}
 
 
 # =====================================================================================
@@ -649,13 +1548,14 @@ CONFIGS: dict[str, dict] = dict(ORCH_CONFIGS)
 # =====================================================================================
 def _alphabet(cfg: dict, model_cls: type) -> Callable[[list], list]:
     ops = cfg["ops"]
+    free = cfg.get("free", ())
 
     def f(hist: list) -> list:
         m = model_cls(cfg)
         m.reset()
         for op in hist:
             m.apply(op)
-        return [op for op in ops if m.enabled(op)]
+        return [op for op in ops if op[0] in free or m.enabled(op)]
 
     return f
 
@@ -665,15 +1565,17 @@ def _watchdog(signum: int, frame: Any) -> None:
 
 
 def _unit(item: tuple) -> Partial:
-    name, seed, first, depth = item
+    name, seed, first, depth, backends = item
     cfg = CONFIGS[name]
     impl_cls, model_cls = KINDS[cfg["comp"]]
     p = Partial()
-    impls = [impl_cls(env.MEM, cfg), impl_cls(env.SQLITE, cfg)]
+    impls = [impl_cls(b, cfg) for b in backends]
     model = model_cls(cfg)
+    if len(impls) == 1:
+        impls[0].peer = model
     init = list(cfg["seeds"][seed]) + ([first] if first is not None else [])
     signal.signal(signal.SIGALRM, _watchdog)
-    signal.alarm(1500)
+    signal.alarm(2400)
     try:
         st = bfs.explore(p, impls, model, _alphabet(cfg, model_cls), depth, tag=name, init_history=init)
     finally:
@@ -684,7 +1586,10 @@ def _unit(item: tuple) -> Partial:
     p.count(f"transitions[{name}]", st["transitions"])
     p.max(f"depth[{name}]", st["depth"] + len(init))
     p.max("depth_completed", st["depth"] + len(init))
-    p.count("traces_validated_against_impl", st["transitions"])
+    p.count("traces_validated_against_impl", st["transitions"] * len(backends))
+    if st["transitions"] and first is None:
+        p.sample({"config": name, "seed": seed, "implementations": list(backends), "depth": st["depth"],
+                  "states": st["states"], "transitions": st["transitions"]})
     return p
 
 
@@ -698,26 +1603,68 @@ def _items(ctx: Ctx) -> list[tuple]:
         impl_cls, model_cls = KINDS[cfg["comp"]]
         alpha = _alphabet(cfg, model_cls)
         for seed, hist in cfg["seeds"].items():
-            items.append((name, seed, None, 1))  # validates every first operation from the seeded state
+            if name.startswith("probe/"):
+                # a probe stops at the first disagreement: one search per implementation, never split
+                for b in env.BACKENDS:
+                    items.append((name, seed, None, depth, (b,)))
+                continue
+            items.append((name, seed, None, 1, env.BACKENDS))  # validates every first operation from the seeded state
             if depth > 1:
                 for first in alpha(list(hist)):
-                    items.append((name, seed, first, depth - 1))
+                    items.append((name, seed, first, depth - 1, env.BACKENDS))
     return items
 
 
 def run(ctx: Ctx) -> None:
     items = _items(ctx)
+    # longest units first (deterministic), rotated by the seed: the explored set never depends on it
     rot = ctx.seed % max(1, len(items))
     for part in par.pmap(_unit, items[rot:] + items[:rot]):
         ctx.merge(part)
-    ctx.rule = "BFS per component"
+    ctx.samples = ctx.samples[:8]
+    tier = 1 if ctx.thorough else 0
+    ctx.rule = ("per configuration (component x theme): explicit-state BFS (vf.bfs.explore) over the theme's mutating operations on "
+                "the in-memory implementation, the SQLite implementation and a reference model; after every operation the result / "
+                "exception class and the full read-out (every public query of the component over the small universes) are compared; "
+                "states merged on the pair of concrete dumps; depth from the seeded histories: "
+                + ", ".join(f"{n}={c['depth'][tier]}" for n, c in CONFIGS.items() if not n.startswith("probe/"))
+                + "; probe/* configurations: one search per implementation against the model around each suspected divergence")
+    for a in ASSUMPTIONS:
+        ctx.assume(a)
+
+
+ASSUMPTIONS = [
+    "only the exhaustive part of the quantifier is built: no seeded random sequences of a few hundred operations",
+    "the alphabet is partitioned into themes per component (lifecycle, rare statuses, wait graph, runners/recovery, auto-purge; "
+    "invocations/results, history/contexts, workflows, purge; definitions, valid conditions, cron, claims); cross-theme sequences are "
+    "only explored to depth 2-3 (the all-pairs configurations)",
+    "orders are compared only where the base class promises one (pagination newest first, history by time, active runners by creation "
+    "time); everything else as sorted tuples (multisets); get_blocking_invocations(n) with n below the number of candidates must "
+    "return n distinct candidates (which ones is only checked by probe/orch/blocking-oldest-first)",
+    "main-model choices where the text is silent or both implementations contradict it (each contradicted text has its probe): "
+    "pagination is ordered by the time of the last status change; a heartbeat of a known runner also rewrites its atomic-service "
+    "eligibility; key-argument look-ups only see invocations whose arguments were indexed",
+    "operations outside the documented contract are not in the main alphabets: registering an id that is already registered (probe), "
+    "retry increments / argument indexing / auto-purge set-up / wait edges on ids the orchestrator does not know, an explicit second "
+    "auto-purge set-up (probe), release_waiters on a non-final invocation, an atomic-service window of a runner without heartbeat (probe), "
+    "auto_purge with two or more purgeable invocations (probe: SQLite raises), store_last_cron_execution for an unregistered "
+    "condition (probe), registering one trigger definition twice without the documented clean-up (probe), filter_by_status over ids "
+    "that are not registered (probe), purge of the state backend after workflow data / runner contexts were stored (probes + sb/purge-rest)",
+    "timed configurations: frozen dyadic clock (unit 2^-6 s, all three limits 0.9375 s, one time line per implementation, every "
+    "operation takes one unit) so that both sides of 'age >= limit' / 'age > timeout' are states of the search; untimed configurations: "
+    "the clock ticks 1 us per read, limits are the defaults",
+    "stamps are distinct (the SQLite history key is (invocation, timestamp, status)); batched heartbeats of several new runners "
+    "(equal creation time) are not in the alphabet",
+    "the trigger loop (trigger_loop_iteration) and task execution are not driven here (C12/C13); the model evaluates cron schedules "
+    "with pynenc's own CronCondition arithmetic (shared, not a backend)",
+]
 
 
 def replay(payload: dict) -> bool:
     r = payload["replay"]
     cfg = CONFIGS[r["config"]]
     impl_cls, model_cls = KINDS[cfg["comp"]]
-    impls = [impl_cls(env.MEM, cfg), impl_cls(env.SQLITE, cfg)]
+    impls = [impl_cls(b, cfg) for b in env.BACKENDS]
     model = model_cls(cfg)
     bad = False
     try:
